@@ -82,6 +82,9 @@ def rename_state(mach, old_nm, nm):
                     c["Next"] = nm
 
 
+FIELD_NAMES = ["Result", "Parameters", "ItemSelector", "ResultSelector", "Next", "Default", "Branches", "Iterator",
+               "ItemProcessor", "Catch", "Retry", "Choices", "End", "InputPath", "ResultPath", "OutputPath", "Resource",
+               "Comment", "StartAt"]
 ODD_NAMES = ["a.b", "x[0]", "*", "n.m.o", "$.x", "..", "a b", "it's", "Say \"hi\"", "?(@)", "[*]", "Type", "Result", "States",
              "é", "0"]
 
@@ -89,7 +92,7 @@ ODD_NAMES = ["a.b", "x[0]", "*", "n.m.o", "$.x", "..", "a b", "it's", "Say \"hi\
 def mutate(rng, d):
     d = copy.deepcopy(d)
     kind = rng.choice(["drop", "drop", "rename-state", "retarget", "retag", "wrong-type", "dup-name", "dup-name", "dup-name", "odd-name", "odd-name", "unreachable",
-                       "empty-branches", "swap-end-next"])
+                       "empty-branches", "swap-end-next", "field-named-dangling", "field-named-dangling", "odd-string", "odd-string"])
     ps = paths(d)
     try:
         if kind == "drop":
@@ -159,6 +162,25 @@ def mutate(rng, d):
             if rng.random() < 0.3:
                 d["States"]["Xtra"] = {"Type": "Pass", "Result": {nm: {"Type": "Pass"}}, "ResultPath": "$.xtra", "Next": d["StartAt"]}
                 d["StartAt"] = "Xtra"
+        elif kind == "field-named-dangling":
+            # a state that bears the name of a FIELD of the language (legal: state names are free text) and whose own
+            # transition dangles: the name must not make the validator look away
+            conts = [p for p, v in ps if p and p[-1] == "States" and isinstance(v, dict) and v] + [("States",)]
+            p = rng.choice(conts)
+            mach = get(d, p[:-1]) if len(p) > 1 else d
+            cand = [n for n, st in mach["States"].items() if isinstance(st, dict) and ("Next" in st or "Default" in st)]
+            old_nm = rng.choice(sorted(cand))
+            nm = rng.choice(FIELD_NAMES)
+            if nm in state_names(d):
+                raise IndexError
+            rename_state(mach, old_nm, nm)
+            st = mach["States"][nm]
+            st["Next" if "Next" in st else "Default"] = "Nowhere"
+        elif kind == "odd-string":
+            # string-valued fields with strings their grammar does not allow (empty, malformed timestamps / paths / ARNs)
+            cand = [p for p, v in ps if p and isinstance(v, str) and p[-1] not in ("Type", "Comment")]
+            p = rng.choice(cand)
+            get(d, p[:-1])[p[-1]] = rng.choice(["", " ", "2023-13-45T99:99:99Z", "T", "$", "$.", "$$", "arn:", "\u0000", "Z", "-"])
         elif kind == "unreachable":
             d["States"]["Orphan"] = {"Type": "Pass", "End": True}
         elif kind == "empty-branches":
@@ -202,17 +224,46 @@ PROBES = {
 }
 
 
+TS_BASE = {"StartAt": "C", "States": {
+    "C": {"Type": "Choice", "Choices": [
+        {"Variable": "$.when", "TimestampLessThan": "2030-01-01T00:00:00Z", "Next": "W"},
+        {"Not": {"Variable": "$.when", "TimestampEquals": "2023-11-14T22:13:20+05:30"}, "Next": "W"},
+        {"And": [{"Variable": "$.when", "TimestampGreaterThanEquals": "2001-01-01T00:00:00.5Z"},
+                 {"Variable": "$.when", "IsTimestamp": True}], "Next": "P"}], "Default": "P"},
+    "W": {"Type": "Wait", "Timestamp": "2023-11-14T22:13:22Z", "Next": "P"},
+    "P": {"Type": "Pass", "End": True}}}
+TS_STRINGS = ["", " ", "Z", "T", "2023", "2023-11-14", "2023-11-14T22:13:20", "2023-13-45T99:99:99Z", "2023-11-14T22:13:20+5:30",
+              "2023-11-14t22:13:20z", "2023-11-14T22:13:20.Z", "now", "\u0000"]
+
+
+def ts_cases():
+    """Every timestamp-typed field of TS_BASE x every string of TS_STRINGS (and a few non-strings)."""
+    fields = [p for p, v in paths(TS_BASE) if p and isinstance(v, str) and (str(p[-1]).startswith("Timestamp"))]
+    return [("ts", fi, vi) for fi in range(len(fields)) for vi in range(len(TS_STRINGS) + 3)]
+
+
 def run_one(i, extra):
     probe = None
+    forced = None
     if isinstance(i, tuple) and i[0] == "probe":
         probe = i[1]
         i = 0
+    if isinstance(i, tuple) and i[0] == "ts":
+        fields = [p for p, v in paths(TS_BASE) if p and isinstance(v, str) and (str(p[-1]).startswith("Timestamp"))]
+        forced = copy.deepcopy(TS_BASE)
+        val = (TS_STRINGS + [5, None, ["2023-11-14T22:13:20Z"]])[i[2]]
+        get(forced, fields[i[1]][:-1])[fields[i[1]][-1]] = val
+        i = 7000 + i[1] * 100 + i[2]
     seed = common.run_seed(i)
     rng = random.Random(seed)
     findings = []
     probes = {}
     r = rng.random()
-    if probe is not None:
+    if forced is not None:
+        mutant = forced
+        kind = "timestamp-field"
+        script, functions, inp = {}, [], {"when": "2023-11-14T22:13:20Z"}
+    elif probe is not None:
         mutant = copy.deepcopy(PROBES[probe])
         kind = "probe"
         script, functions, inp = {}, [], {}
@@ -222,7 +273,19 @@ def run_one(i, extra):
         kind = "garbage-value"
         script, functions, inp = {}, [], {}
     else:
-        if rng.random() < 0.5:
+        r2 = rng.random()
+        if r2 < 0.12:
+            # timestamp-typed fields (Wait Timestamp, Choice Timestamp* rules, also under Not/And)
+            base = {"StartAt": "C", "States": {
+                "C": {"Type": "Choice", "Choices": [
+                    {"Variable": "$.when", "TimestampLessThan": "2030-01-01T00:00:00Z", "Next": "W"},
+                    {"Not": {"Variable": "$.when", "TimestampEquals": "2023-11-14T22:13:20+05:30"}, "Next": "W"},
+                    {"And": [{"Variable": "$.when", "TimestampGreaterThanEquals": "2001-01-01T00:00:00.5Z"},
+                             {"Variable": "$.when", "IsTimestamp": True}], "Next": "P"}], "Default": "P"},
+                "W": {"Type": "Wait", "Timestamp": "2023-11-14T22:13:22Z", "Next": "P"},
+                "P": {"Type": "Pass", "End": True}}}
+            script, inp = {}, {"when": "2023-11-14T22:13:20Z"}
+        elif r2 < 0.5:
             c = corpus.CORPUS[rng.choice(sorted(corpus.CORPUS))]
             base, script, inp = c["definition"], dict(c["script"]), c["input"]
         else:
@@ -269,8 +332,10 @@ def run_one(i, extra):
         ch = NativeChannel(res.sim, "poisoner")
         for k, body in enumerate(poison):
             def pub(body=body, k=k):
+                # (a client need not set an AMQP message id: every other poison message comes without one)
                 res.sim.broker.basic_publish(ch.rec, "", "asl_workflow_events", body,
-                                             Props(content_type="application/json", message_id="poison-%d" % k))
+                                             Props(content_type="application/json",
+                                                   message_id="poison-%d" % k if k % 2 == 0 else None))
             res.sim.call_at(res.sim.now + rng.choice([0.0, 0.7, 2.2]), pub, None, kind="client", label="poison")
 
         def third():
@@ -387,7 +452,7 @@ def main(argv):
     tier = common.tier()
     n = 1500 if tier == "quick" else 60000
     rep = common.Report(PROP)
-    items = [("probe", k) for k in sorted(PROBES)] + list(range(n))
+    items = [("probe", k) for k in sorted(PROBES)] + ts_cases() + list(range(n))
     for r in common.run_batch("checks.c18", "run_one", items, {}):
         rep.absorb(r)
     return rep.finish(
